@@ -179,7 +179,7 @@ func (p *Prog) lin(v ssa.Value, d int) Lin {
 				}
 				return LinAtom("cell:" + pickName(al))
 			}
-			a := p.Eval(nil, x.X)
+			a := p.Eval(p.linFrame, x.X)
 			return LinAtom("F(" + p.PathAtom(a) + ")")
 		case token.NOT:
 			return LinAtom("!(" + p.lin(x.X, d+1).String() + ")")
@@ -194,7 +194,7 @@ func (p *Prog) lin(v ssa.Value, d int) Lin {
 		return p.lin(x.X, d+1)
 	case *ssa.Call:
 		if b, ok := x.Call.Value.(*ssa.Builtin); ok && (b.Name() == "len" || b.Name() == "cap") && len(x.Call.Args) == 1 {
-			a := p.Eval(nil, x.Call.Args[0])
+			a := p.Eval(p.linFrame, x.Call.Args[0])
 			return LinAtom(b.Name() + "(" + p.PathAtom(a) + ")")
 		}
 		if b, ok := x.Call.Value.(*ssa.Builtin); ok && (b.Name() == "min" || b.Name() == "max") {
@@ -205,11 +205,14 @@ func (p *Prog) lin(v ssa.Value, d int) Lin {
 			sort.Strings(parts)
 			return LinAtom(b.Name() + "(" + strings.Join(parts, ",") + ")")
 		}
+		if l, ok := p.linAccessor(x, d); ok {
+			return l
+		}
 		return LinAtom("call:" + p.CalleeName(&x.Call) + "@" + x.Name())
 	case *ssa.Extract:
 		switch t := x.Tuple.(type) {
 		case *ssa.Lookup:
-			m := p.Eval(nil, t.X)
+			m := p.Eval(p.linFrame, t.X)
 			if x.Index == 0 {
 				return LinAtom("M(" + p.PathAtom(m) + ")[" + p.lin(t.Index, d+1).String() + "]")
 			}
@@ -218,14 +221,14 @@ func (p *Prog) lin(v ssa.Value, d int) Lin {
 			return LinAtom("call:" + p.CalleeName(&t.Call) + "#" + itoa(x.Index) + "@" + t.Name())
 		case *ssa.Next:
 			if rg, ok := t.Iter.(*ssa.Range); ok {
-				a := p.Eval(nil, rg.X)
+				a := p.Eval(p.linFrame, rg.X)
 				return LinAtom("range(" + p.PathAtom(a) + ")#" + itoa(x.Index))
 			}
 		case *ssa.TypeAssert:
 			return LinAtom("assert:" + t.Name() + "#" + itoa(x.Index))
 		}
 	case *ssa.Lookup:
-		m := p.Eval(nil, x.X)
+		m := p.Eval(p.linFrame, x.X)
 		return LinAtom("M(" + p.PathAtom(m) + ")[" + p.lin(x.Index, d+1).String() + "]")
 	case *ssa.Phi:
 		if p.inLinPhi == nil {
@@ -259,6 +262,11 @@ func (p *Prog) lin(v ssa.Value, d int) Lin {
 		}
 		return LinAtom("phi:" + pickPhiName(x))
 	case *ssa.Parameter:
+		if p.linArgs != nil {
+			if l, ok := p.linArgs[x]; ok {
+				return l
+			}
+		}
 		return LinAtom("P(" + x.Name() + ")")
 	case *ssa.FreeVar:
 		// a captured cell: resolve to its alloc for naming
@@ -623,4 +631,54 @@ func (p *Prog) EdgeCond(fn *ssa.Function, from *ssa.BasicBlock, pred, succ *ssa.
 		}
 	}
 	return out
+}
+
+// linAccessor inlines a call to a pure in-package accessor (single return, no effects), e.g.
+// (*Channel).pending, so that its result takes part in linear forms of the caller.
+func (p *Prog) linAccessor(call *ssa.Call, d int) (Lin, bool) {
+	callee := call.Call.StaticCallee()
+	if callee == nil || call.Call.IsInvoke() {
+		return Lin{}, false
+	}
+	cf := Canon(callee)
+	if !p.IsLib(cf) || len(cf.Blocks) != 1 || d > 20 {
+		return Lin{}, false
+	}
+	var ret *ssa.Return
+	for _, in := range cf.Blocks[0].Instrs {
+		switch x := in.(type) {
+		case *ssa.Store, *ssa.MapUpdate, *ssa.Send, *ssa.Go, *ssa.Defer, *ssa.RunDefers, *ssa.Panic:
+			return Lin{}, false
+		case *ssa.Call:
+			if _, isB := x.Call.Value.(*ssa.Builtin); !isB {
+				return Lin{}, false
+			}
+		case *ssa.Return:
+			ret = x
+		}
+	}
+	if ret == nil || len(ret.Results) != 1 || !isIntType(ret.Results[0].Type()) {
+		return Lin{}, false
+	}
+	// bind parameters: paths through the caller's frame, integers through their linear forms
+	saveF, saveA := p.linFrame, p.linArgs
+	fr := &Frame{Fn: cf, Parent: saveF}
+	args := map[*ssa.Parameter]Lin{}
+	for k, v := range saveA {
+		args[k] = v
+	}
+	for i, prm := range cf.Params {
+		if i >= len(call.Call.Args) {
+			return Lin{}, false
+		}
+		a := call.Call.Args[i]
+		fr.Params = append(fr.Params, p.Eval(saveF, a))
+		if isIntType(prm.Type()) {
+			args[prm] = p.lin(a, d+1)
+		}
+	}
+	p.linFrame, p.linArgs = fr, args
+	l := p.lin(ret.Results[0], d+1)
+	p.linFrame, p.linArgs = saveF, saveA
+	return l, true
 }
